@@ -57,6 +57,10 @@ def make_directory(rng, conv, tier):
             fmt = rng.choice(others)
             v = valid_sources(rng, fmt, 1)[0]
         r = rng.random()
+        if i == 0 and conv == 'rp66v1' and valids[0][1].corruptor is not None:
+            # always one convertible "twin" of a valid file of the directory (same size and layout, one letter of a text value changed)
+            fmt, v = valids[0]
+            r = 0.2
         if r < 0.08:
             op, data = 'empty', b''
         elif v.corruptor is not None and r < 0.4:
